@@ -121,7 +121,7 @@ func c16Run(tb rt.TB, t *testing.T, c c16Case) {
 		var cutTime time.Duration = -1
 		doCut := func() {
 			switch c.Cut {
-			case "cancel":
+			case "cancel", "cancel-deaf-producer":
 				cancel()
 			default:
 				select {
@@ -145,7 +145,7 @@ func c16Run(tb rt.TB, t *testing.T, c c16Case) {
 			defer close(producerDone)
 			for i, g := range c.Gaps {
 				time.Sleep(ms(g))
-				if ctx.Err() != nil {
+				if ctx.Err() != nil && c.Cut != "cancel-deaf-producer" {
 					return // a context-aware producer: it stops at cancellation
 				}
 				mu.Lock()
@@ -153,7 +153,7 @@ func c16Run(tb rt.TB, t *testing.T, c c16Case) {
 				mu.Unlock()
 				man.Emit(rt.N(i + 1))
 			}
-			if ctx.Err() != nil {
+			if ctx.Err() != nil && c.Cut != "cancel-deaf-producer" {
 				return
 			}
 			switch c.End {
@@ -222,7 +222,7 @@ func c16Judge(c c16Case, got []timedRec, emitted []time.Duration, cut time.Durat
 		return s
 	}
 	// silence after the cut (a callback already in progress at the cut is not possible here: the cut happens at quiescence)
-	if cut >= 0 {
+	if cut >= 0 && c.Cut != "cancel-deaf-producer" {
 		for _, r := range got {
 			if r.At > cut && !(c.Cut == "cancel" && r.K != 'N') {
 				fail("activity-after-cut", fmt.Sprintf("%s: %c delivered at %v, after the %s at %v;%s", desc, r.K, r.At, c.Cut, cut, show()))
@@ -430,6 +430,11 @@ func c16Gen(t *rapid.T) c16Case {
 		// (the periodic sources and the stages clocked by Interval)
 		if op != "Delay" && op != "DelayEach" && op != "Timeout" && rapid.Bool().Draw(t, "cancel") {
 			c.Cut = "cancel"
+		}
+		// the delays do not watch the context: with a producer that does not either
+		// (most synchronous sources), cancelling must not make anything arrive early
+		if (op == "Delay" || op == "DelayEach") && rapid.Bool().Draw(t, "cancelDeaf") {
+			c.Cut = "cancel-deaf-producer"
 		}
 	}
 	return c
